@@ -92,7 +92,7 @@ Lemma rename_shape g a b g' : rename g a b = FOk g' ->
   (g' = g /\ a = b) \/ exists g'', incl g'' g /\ g' = map (move_entry a b) g''.
 Proof.
   unfold rename. destruct (lstat g a) as [na|]; [|discriminate].
-  destruct (negb (is_dir g (pathdir b))); [discriminate|].
+  destruct (negb (is_dir g (pathdir b)) || negb (names_fit b)); [discriminate|].
   destruct (at_or_under a b).
   - destruct (beq a b) eqn:Eab; [|discriminate]. apply beq_true in Eab. intros H. injection H as <-. now left.
   - intros H. right.
@@ -146,13 +146,15 @@ Proof. intros H q y Hq. apply H. apply in_or_app. now left. Qed.
 
 Lemma FJ_mkdir_all g p g' : mkdir_all g p = FOk g' -> FJ g -> FJ g'.
 Proof.
+  unfold mkdir_all. destruct (is_dir g p); [intros H; now injection H as <-|].
+  destruct (names_fit p); [|discriminate].
   intros H HJ q y Hq. destruct (mkdir_prefixes_in _ _ _ H _ Hq) as [H1|H1]; [now apply HJ|discriminate].
 Qed.
 Lemma FJ_remove_all g p g' : remove_all g p = FOk g' -> FJ g -> FJ g'.
 Proof. unfold remove_all. destruct (beq p root); [discriminate|]. intros H. injection H as <-. apply FJ_filter. Qed.
 Lemma FJ_symlink g l t g' : symlink g l t = FOk g' -> FJ g -> FJ g'.
 Proof.
-  unfold symlink. destruct (lstat g l); [discriminate|]. destruct (is_dir g (pathdir l)); [|discriminate].
+  unfold symlink. destruct (lstat g l); [discriminate|]. destruct (is_dir g (pathdir l) && names_fit l); [|discriminate].
   intros H HJ. injection H as <-. apply FJ_app; [exact HJ|]. intros q y [H|[]]. discriminate.
 Qed.
 Lemma FJ_fs_set g p y : FJ g -> Phi p y -> FJ (fs_set g p (File y)).
@@ -163,14 +165,14 @@ Lemma FJ_write_text g p c g' : write_text g p c = FOk g' -> (forall y, Phi p y) 
 Proof.
   unfold write_text. intros H Hp HJ. destruct (lstat g p) as [[|old|t]|]; try discriminate.
   - injection H as <-. now apply FJ_fs_set.
-  - destruct (is_dir g (pathdir p)); [|discriminate]. injection H as <-.
+  - destruct (is_dir g (pathdir p) && names_fit p); [|discriminate]. injection H as <-.
     apply FJ_app; [exact HJ|]. intros q y [Hq|[]]. injection Hq as <- <-. apply Hp.
 Qed.
 Lemma FJ_open_trunc g p g' : open_trunc g p = FOk g' -> Phi p [] -> FJ g -> FJ g'.
 Proof.
   unfold open_trunc. intros H Hp HJ. destruct (lstat g p) as [[|old|t]|]; try discriminate.
   - injection H as <-. now apply FJ_fs_set.
-  - destruct (is_dir g (pathdir p)); [|discriminate]. injection H as <-.
+  - destruct (is_dir g (pathdir p) && names_fit p); [|discriminate]. injection H as <-.
     apply FJ_app; [exact HJ|]. intros q y [Hq|[]]. injection Hq as <- <-. apply Hp.
 Qed.
 Lemma FJ_append g p c : (forall y, Phi p y) -> FJ g -> FJ (append_file g p c).
